@@ -50,8 +50,13 @@ impl<T: Value> ExpertEdge for Edge<T> {
     fn on_change(&self) {
         let mut handler = self.on_change.borrow_mut();
         if let Some(h) = &mut *handler {
+            /* The value is not necessarily set: when an edge is linked (see
+            [add_parent_without_adjusting_heights]) the child may not have been computed yet.
+            In that case the callback runs later, when the child's first value arrives. */
             let v = self.child.node.value_as_ref();
-            h(v.as_ref().unwrap());
+            if let Some(v) = v.as_ref() {
+                h(v);
+            }
         }
     }
     fn packed(&self) -> NodeRef {
